@@ -145,6 +145,15 @@ func c01Check(c *fw.Ctx, specs []*gen.Spec, bom bool, what string) {
 	doc, b := gen.Build(specs, bom)
 	c.Count("substituted-specs", int64(b.Substituted))
 	text := doc.String()
+	// The same document object is written again straight away after its BOM
+	// flag was switched (no node is added or removed and nothing is decoded in
+	// between): the text must follow the flag. t3 is decoded further down.
+	t3, toggled := "", what == "random" || c.R.Chance(1, 16)
+	if toggled {
+		doc.HasBOM = !bom
+		t3 = doc.String()
+		doc.HasBOM = bom
+	}
 	nested := false
 	for _, n := range doc.Nodes() {
 		if len(n.Nodes()) > 0 {
@@ -191,6 +200,17 @@ func c01Check(c *fw.Ctx, specs []*gen.Spec, bom bool, what string) {
 	// the decoded document must print the same text again
 	if t2 := dec.String(); t2 != text {
 		c.Violation("re-encode-differs:"+shape(), fmt.Sprintf("decode(encode(doc)).String() differs from doc.String()\n%s\n---\n%s", clip(text, 300), clip(t2, 300)), payload)
+	}
+	if toggled {
+		c.Count("rewritten-after-bom-toggle", 1)
+		hasBOM := strings.HasPrefix(t3, "\xef\xbb\xbf")
+		if hasBOM != !bom {
+			c.Violation("bom-flag-after-toggle:"+shape(), fmt.Sprintf("HasBOM was set to %v on a document that had just been written; the text written next starts with a BOM: %v", !bom, hasBOM), payload)
+		} else if d3, err := gedcom.NewDocumentFromString(t3); err != nil || d3.HasBOM != !bom {
+			c.Violation("bom-flag-after-toggle:"+shape(), fmt.Sprintf("after switching HasBOM to %v the written text decodes with err=%v", !bom, err), payload)
+		} else if strings.TrimPrefix(t3, "\xef\xbb\xbf") != strings.TrimPrefix(text, "\xef\xbb\xbf") {
+			c.Violation("text-changed-by-bom-toggle:"+shape(), "switching HasBOM changed more than the BOM", payload)
+		}
 	}
 	if c.WantSample(what) {
 		c.Sample(what, map[string]interface{}{"text": clip(text, 400), "bom": bom})
